@@ -24,6 +24,9 @@ fn main() {
             let mut bad = 0u64;
             let mut panics = 0u64;
             let mut steps_total = 0u64;
+            // divergent replays are kept (up to a cap) and an even sample of `max_report` is written at the
+            // end, so that the reported ones are spread over the whole export and not only its beginning
+            let mut kept: Vec<Value> = Vec::new();
             let stdin = std::io::stdin();
             vharness::read_behaviours(stdin.lock(), |b| {
                 total += 1;
@@ -50,11 +53,19 @@ fn main() {
                 if !ok {
                     bad += 1;
                 }
-                if (!ok && bad <= max_report) || trace_all {
+                if trace_all {
                     writeln!(out, "{}", json!({"diverged": !ok, "steps": steps, "expect": b["expect"],
                         "real_views": views, "events": run.events, "last_out_ok": last_out_ok})).unwrap();
+                } else if !ok && kept.len() < 4000 {
+                    kept.push(json!({"diverged": true, "steps": steps, "expect": b["expect"],
+                        "real_views": views, "events": run.events, "last_out_ok": last_out_ok}));
                 }
             });
+            let want = (max_report as usize).min(kept.len());
+            for j in 0..want {
+                let idx = if want <= 1 { 0 } else { j * (kept.len() - 1) / (want - 1) };
+                writeln!(out, "{}", kept[idx]).unwrap();
+            }
             writeln!(out, "{}", json!({"summary": true, "behaviours": total, "steps": steps_total,
                 "diverged": bad, "panics": panics})).unwrap();
         }
